@@ -30,12 +30,14 @@ if os.path.exists(os.path.join(src, 'meta.json')):
         meta = {}
 confirm = subprocess.run(['/verif/tools/confirm_seed.sh', dst], capture_output=True, text=True).stdout.strip().splitlines()[-1]
 caught = {}
-for c in checks:
-    out = subprocess.run(['/verif/tools/seedtest.sh', os.path.join(dst, 'patch.diff'), c], capture_output=True, text=True,
-                         env=dict(os.environ, SEED_TIMEOUT='1500')).stdout
+for spec in checks:
+    c, _, tier = spec.partition(':')   # "C13:thorough" runs the thorough tier
+    tier = tier or 'quick'
+    out = subprocess.run(['/verif/tools/seedtest.sh', os.path.join(dst, 'patch.diff'), c, tier], capture_output=True, text=True,
+                         env=dict(os.environ, SEED_TIMEOUT='1500' if tier == 'quick' else '6000')).stdout
     keys = [l.split(':')[0].split()[-1] for l in out.splitlines() if l.startswith('[%s]   ' % c)]
     rc = [l for l in out.splitlines() if l.startswith('rc=')]
-    caught[c] = {"exit": rc[-1] if rc else "?", "violation_keys": keys[:6]}
+    caught[spec] = {"exit": rc[-1] if rc else "?", "tier": tier, "violation_keys": keys[:6]}
 head = subprocess.run(['git', '-C', '/repo', 'rev-parse', '--short', 'HEAD'], capture_output=True, text=True).stdout.strip()
 out = {
     "id": sid,
@@ -50,7 +52,7 @@ out = {
         "how": "tools/confirm_seed.sh in a scratch worktree of /repo HEAD: go build ./cmd/rdpgw, go test ./... (existing suite), demo/run.sh without and with the patch",
         "result": confirm,
     },
-    "checks_run_against_it": {"how": "tools/seedtest.sh <patch> <check> (git apply to /repo, ./check.sh <id> quick, git checkout)", "result": caught},
+    "checks_run_against_it": {"how": "tools/seedtest.sh <patch> <check> (git apply to /repo, ./check.sh <id> <tier>, git checkout)", "result": caught},
 }
 json.dump(out, open(os.path.join(dst, 'meta.json'), 'w'), indent=1)
 print(sid, confirm.split('patch=')[-1].split(' ', 1)[-1], {c: caught[c]['exit'] for c in caught})
